@@ -716,3 +716,120 @@ class ConcretePathCheck:
         if hash(tuple(map(str, s.ex.decisions))) % 173 == 0:
             rec['sample'] = {'message': repr(s.msg)}
         return rec
+
+
+# ----------------------------------------------------------------------------- C08: payloads at later argument positions
+class PayloadArgCheck:
+    """C08 at argument positions >= 2 and with two payloads in one unit (device TY): N3 1,ON,<string> / MIX? -5,<block>,OFF /
+    SS <string>,<string> / BB <block>,<block>, optionally followed by `;N0`; through run and through process in every single cut,
+    byte-at-a-time and all-at-once.  Payload bytes symbolic (blocks: all values; strings: ASCII without the enclosing quote)."""
+    TEMPLATES = ['N3 1,ON,{S0}', 'MIX? -5,{K0},OFF', 'SS {S0},{S1}', 'BB {K0},{K1}', 'N3 1,ON,{Q0}']
+
+    def __init__(s, world, params):
+        s.w, s.ex = world, world.ex
+        s.dev = 'TY'
+        s.entry = params.get('entry', 'run')
+        s.maxlen = params.get('maxlen', 2)
+        s.slack = params.get('slack', 0)
+        s.twin = params.get('twin', False)
+        s.ids = {c['cmd']: k for k, c in enumerate(world.devices['TY']['cmds'])}
+
+    def payload(s, ex, name, kind):
+        ln = ex.decide([(i, True) for i in range(0, s.maxlen + 1)])
+        pay = [z3.BitVec(f'{name}{i}', 8) for i in range(ln)]
+        if kind == 'K':
+            return list(b'#1') + [48 + ln] + pay, pay
+        q = 34 if kind == 'S' else 39
+        for b in pay:
+            ex.solver.add(b != q, z3.ULT(b, 128))
+        return [q] + pay + [q], pay
+
+    def body(s):
+        ex, w = s.ex, s.w
+        t = ex.decide([(i, True) for i in range(len(s.TEMPLATES))])
+        tmpl = s.TEMPLATES[t]
+        msg, pays = [], []
+        i = 0
+        while i < len(tmpl):
+            if tmpl[i] == '{':
+                lit, pay = s.payload(ex, f'p{tmpl[i + 2]}_', tmpl[i + 1])
+                msg += lit
+                pays.append(pay)
+                i += 4
+            else:
+                msg.append(ord(tmpl[i]))
+                i += 1
+        suffix = ex.decide([(0, True), (1, True)]) == 1
+        if suffix:
+            msg += list(b';N0')
+        msg.append(10)
+        probe = ex.decide([(0, True), (1, True)]) == 1
+        if probe:
+            msg += list(b'N0\n')
+        s.msg = msg
+        head = tmpl.split(' ')[0]
+        sl = [('slice', tuple(p)) for p in pays]
+        args = {'N3': (1, True, sl[0]), 'MIX?': (-5, sl[0], False), 'SS': tuple(sl), 'BB': tuple(sl)}[head]
+        exp = [('call', s.ids[head], args)] + ([('call', s.ids['N0'], ())] if suffix else []) + ([('call', s.ids['N0'], ())] if probe else [])
+        exp_out = [55, 10] if head == 'MIX?' else []
+        if s.twin:
+            exp = exp + [('call', s.ids['N0'], ())]
+        if s.entry == 'run':
+            dev, out, extra = execute(w, s.dev, 'run', msg)
+            s.chunks, s.n = None, None
+        else:
+            n = len(msg) + s.slack
+            if n > 16:
+                n = 24 if n <= 24 else 32 if n <= 32 else 64
+            s.n = n
+            sched = ex.decide([(i, True) for i in range(0, len(msg) + 1)])
+            chunks = [] if sched == 0 else ([len(msg)] if sched == len(msg) else [sched, len(msg) - sched])
+            s.chunks = chunks
+            dev, out, extra = execute(w, s.dev, 'process', msg, n=n, chunks=chunks, tail=1)
+        got = observation_events(dev)
+        from .process_level import sym_equal
+        # integers may be recorded as bit-vector values: compare the i16 argument modulo 2^16
+        def norm(ev):
+            return [(e[0], e[1], tuple((a & 0xFFFF) if isinstance(a, int) and not isinstance(a, bool) else a for a in e[2])) if e[0] == 'call' else e for e in ev]
+        eq, m = sym_equal(ex, tuple(norm(got)), tuple(norm(exp)))
+        viol = None
+        if not eq:
+            viol = (f'handlers/arguments/errors {got} differ from the expected {exp}', m)
+        else:
+            eq2, m2 = sym_equal(ex, tuple(flat_out(out)), tuple(exp_out))
+            if not eq2:
+                viol = (f'output {out} differs from the expected {exp_out}', m2)
+        return {'viol': viol, 'form': t}
+
+    def on_leaf(s, out):
+        ex = s.ex
+        rec = {'kind': out[0]}
+        v = None
+        if out[0] == 'ok':
+            rec['form'] = out[1]['form']
+            if out[1]['viol']:
+                v = out[1]['viol']
+                rule = 'TWIN' if s.twin else 'PAYLOAD'
+        else:
+            v = (f'{out[0]}: {out[1]}', None)
+            rule = out[0].upper()
+        if v:
+            m = v[1] if v[1] is not None else ex.path_model()
+            wit = model_bytes(m, s.msg)
+            rec['violations'] = [{'rule': rule, 'what': v[0][:600] + f' for message {bytes_repr(wit)}' + (f' through process::<{s.n}> with reads {s.chunks or "of one byte"}' if s.entry != 'run' else ' through run'),
+                                  'input': bytes(wit).hex(), 'entry': s.entry, 'n': s.n, 'chunks': s.chunks, 'device': 'TY', 'role': rule + ':argpos:' + s.entry}]
+        if hash(tuple(map(str, ex.decisions))) % 101 == 0:
+            rec['sample'] = {'message': bytes_repr(model_bytes(ex.path_model(), s.msg)), 'entry': s.entry, 'chunks': s.chunks}
+        return rec
+
+
+def flat_out(out):
+    from .process_level import flat
+    r = []
+    for x in out:
+        f = flat(x)
+        if isinstance(f, tuple) and f and f[0] == 'token':
+            r.append(f)
+        else:
+            r.append(f)
+    return r
